@@ -58,8 +58,11 @@ def check_proofs(P, ev):
     bad = re.compile(r"\b(Admitted|admit|Axiom|Axioms|Parameter|Parameters|Conjecture|Admit Obligations|Unset Guard Checking|"
                      r"bypass_check|Unset Positivity Checking|Unset Universe Checking|type-in-type|impredicative-set)\b")
     hyg_files = []
-    for d in P.COQ_DIRS + ["Properties", "Refuted", "Extract"]:
+    for d in P.COQ_DIRS:
         hyg_files += glob.glob(os.path.join(COQ, d, "*.v"))
+    for f in [P.COQ_PROP, "Refuted/" + os.path.basename(P.COQ_PROP), "Extract/%s.v" % P.MODEL]:
+        if os.path.exists(os.path.join(COQ, f)):
+            hyg_files.append(os.path.join(COQ, f))
     for f in hyg_files:
         txt = open(f).read()
         txt_nc = re.sub(r"\(\*.*?\*\)", "", txt, flags=re.S)  # strip comments
@@ -135,7 +138,7 @@ def build_runners(P):
     return problems
 
 
-def run_sharded(cmd, lines, tag, timeout=3000):
+def run_sharded(cmd, lines, tag, timeout=900):
     """Feed lines (strings) to NPROC copies of cmd; return list of output lines (same order)."""
     os.makedirs(WORK, exist_ok=True)
     n = len(lines)
